@@ -187,6 +187,12 @@ pub struct RecStream {
     pub flush_error: bool,
     /// if set, every `next` first takes a permit
     pub gate: Option<LArc<Gate>>,
+    /// harness code that runs on the writer thread inside `next` (after the entry was logged) /
+    /// inside `flush` (argument: index of this flush call); it runs after the stream's own
+    /// visible step, as the "harness callbacks are visible steps" rule requires
+    pub on_next: Option<Box<dyn FnMut(&Seen) + Send>>,
+    pub on_flush: Option<Box<dyn FnMut(usize) + Send>>,
+    pub flushes: usize,
 }
 
 impl RecStream {
@@ -199,6 +205,9 @@ impl RecStream {
                 script,
                 flush_error: false,
                 gate: None,
+                on_next: None,
+                on_flush: None,
+                flushes: 0,
             },
             log,
         )
@@ -216,7 +225,10 @@ impl EntryIoStream for RecStream {
             Seen::Tagged(t) => self.script.get(t).copied().unwrap_or(Res::Ok),
             _ => Res::Ok,
         };
-        self.log.lock().unwrap_or_else(|e| e.into_inner()).push(Ev::Next(seen, res));
+        self.log.lock().unwrap_or_else(|e| e.into_inner()).push(Ev::Next(seen.clone(), res));
+        if let Some(f) = &mut self.on_next {
+            f(&seen);
+        }
         match res {
             Res::Ok => Ok(()),
             Res::Validation => Err(IoStreamError::Validation(ValidationError::invalid(
@@ -229,6 +241,11 @@ impl EntryIoStream for RecStream {
     fn flush(&mut self) -> io::Result<()> {
         self.shadow.touch();
         self.log.lock().unwrap_or_else(|e| e.into_inner()).push(Ev::Flush);
+        let idx = self.flushes;
+        self.flushes += 1;
+        if let Some(f) = &mut self.on_flush {
+            f(idx);
+        }
         if self.flush_error {
             Err(io::Error::other("scripted flush error"))
         } else {
